@@ -75,6 +75,7 @@ class Run(object):
         self.r = scen.Runner(role, react)
         self.turns = turns
         self.fault = fault
+        self.conv = conv
 
     def go(self):
         r, (kind, ti, off) = self.r, self.fault
@@ -82,6 +83,8 @@ class Run(object):
         for i, t in enumerate(self.turns):
             if kind == 'fail-send' and i == ti and r.sock is not None:
                 r.sock.fail_send = True
+            if kind == 'stall-send' and i <= ti + 1 and r.sock is not None:
+                r.sock.stalled = True      # the peer stops reading for half a minute: nothing fails, it only takes longer
             if t[0] == 'peer':
                 blob = b''.join(t[1])
                 if kind in ('eof', 'reset') and i == ti:
@@ -127,6 +130,7 @@ class Run(object):
                 r.settle()
             if r.sock is not None:
                 r.sock.fail_send = False
+                r.sock.stalled = False
             if kind in ('stop', 'assoc-kill') and i == ti:
                 try:
                     return self.stop_test() if kind == 'stop' else self.assoc_kill_test()
@@ -145,7 +149,16 @@ class Run(object):
         if r.p.state in (2, 13):
             r.advance(11)
             r.settle()
-        return self.verdict()
+        v = self.verdict()
+        if not v and kind == 'stall-send':
+            base = Run(self.conv, ('none', -1, 0))
+            base.go()
+            a, b = base.r.summary(), r.summary()
+            if a['sent'] != b['sent'] or a['inds'] != b['inds']:
+                return ('a peer that stops reading for half a minute during turn %d (nothing fails, sending only takes longer) '
+                        'changes the conversation: %d PDUs sent and %d indications, %d and %d without the stall'
+                        % (ti, len(b['sent']), len(b['inds']), len(a['sent']), len(a['inds'])))
+        return v
 
     def stop_test(self):
         """the stop protocol of the real provider at this quiescent point: run() in a real thread; stop() must say
@@ -310,6 +323,7 @@ def faults_for(conv, tier):
                     out.append(('eof-mid-send', i, k))
         out.append(('silence', i, 0))
         out.append(('fail-send', i, 0))
+        out.append(('stall-send', i, 0))
         out.append(('stop', i, 0))
         if i == 1:
             out.append(('assoc-kill', i, 0))
@@ -360,7 +374,7 @@ def run(chk):
                 'side, reject, garbage, pipelining; both roles) run on the real provider loop (S2) with one fault each: the '
                 'peer disconnecting after every byte prefix of every peer turn and before every local step (orderly close; and a '
                 'connection reset, where recv raises, at five offsets of every turn), the peer going '
-                'silent for ever after every turn (clock advanced past ARTIM), a transport write failing during every turn, a stop '
+                'silent for ever after every turn (clock advanced past ARTIM), a transport write failing during every turn, the peer not reading for half a minute during every turn (a blocking send just takes longer), a stop '
                 'requested at every quiescent point (run() in a real thread: a stop() that succeeds ends the loop and only in the idle, closed state; kill() returns - also after the loop has ended with an exception); '
                 'oracle: no pass blocks, the loop does not die, final state idle, socket closed and dropped, ARTIM stopped, '
                 'the user told when an association had been indicated; and a real accepting entity on loopback TCP whose peer never sends its first PDU (closed at ARTIM); non-trivial = faults that strike mid-conversation')
